@@ -28,7 +28,7 @@ EXPLANATION = "full product of window masks / dates x portfolios; bound equality
 MIN_NONTRIVIAL_FRACTION = 0.3
 MAX_S = {"quick": 900, "thorough": 7200}
 
-PORTFOLIOS = ["simple", "transport", "multicommodity", "plantfuel", "orderbook", "coarse", "periodic", "structured"]
+PORTFOLIOS = ["simple", "transport", "multicommodity", "plantfuel", "orderbook", "coarse", "periodic", "structured", "series_caps"]
 GRID = dict(start="2021-01-01T00:00", end="2021-01-02T00:00", freq="6h", mtu="h", tz=None)
 
 
@@ -58,6 +58,9 @@ def portfolio(name):
         return [base[0], dict(type="SimpleContract", name="co", nodes=["n1"], price="q", min_cap=-2.0, max_cap=3.0, freq="12h"), base[2]]
     if name == "periodic":
         return [base[0], dict(type="SimpleContract", name="pe", nodes=["n1"], price="q", min_cap=-2.0, max_cap=3.0, periodicity="12h"), base[2]]
+    if name == "series_caps":
+        # must-run feed-in whose capacity is a series of the price data: with new prices the bounds inside the window change
+        return [base[0], dict(type="SimpleContract", name="wind", nodes=["n1"], min_cap="wind", max_cap="wind"), base[2]]
     if name == "structured":
         inner = [dict(type="Storage", name="isto", nodes=["ni"], size=6.0, cap_in=1.0, cap_out=1.0),
                  dict(type="Transport", name="itr", nodes=["ni", "n1"], min_cap=-2.0, max_cap=2.0, efficiency=0.95)]
@@ -87,6 +90,18 @@ def build_cases(tier):
                         c = dict(pf=pf, newp=newp, gridarg=gridarg, window=dict(kind="date", date=d, form=form))
                         c["key"] = chash(c)
                         cases.append(c)
+    # zone-aware grid: date windows given zone-aware, in the grid's zone and in another zone
+    for pf in ("simple", "transport"):
+        for newp in ("A", "B"):
+            for d in DATES:
+                for zone in ("CET", "UTC"):
+                    c = dict(pf=pf, newp=newp, gridarg="passed", tz="CET", window=dict(kind="date", date=d, form="aware:" + zone))
+                    c["key"] = chash(c)
+                    cases.append(c)
+            for m in masks[::3]:
+                c = dict(pf=pf, newp=newp, gridarg="previous", tz="CET", window=dict(kind="mask", mask=list(m), form="array"))
+                c["key"] = chash(c)
+                cases.append(c)
     stats = dict(explorer="E3 product of 3-step histories", states=len(cases), transitions=3 * len(cases),
                  bound=dict(T=4, masks=16, dates=len(DATES), portfolios=len(PORTFOLIOS)))
     return cases, stats
@@ -97,14 +112,17 @@ def run_case(case):
     res = dict(status="ok", violations=[], counters={})
     V = res["violations"]
     w = case["window"]
-    tags = ["pf:" + case["pf"], "window:" + w["kind"], "form:" + w["form"], "prices:" + case["newp"], "grid:" + case["gridarg"]]
+    tags = ["pf:" + case["pf"], "window:" + w["kind"], "form:" + w["form"], "prices:" + case["newp"], "grid:" + case["gridarg"], "tz:%s" % case.get("tz")]
     ctag = ["pf:" + case["pf"], "window:" + w["kind"], "grid:" + case["gridarg"]]
-    g = Grid.from_json(GRID)
+    gjson = dict(GRID, tz=case.get("tz"))
+    g = Grid.from_json(gjson)
     T = g.T
     PA = {k: np.array(v) for k, v in S.make_prices(T, S.PRICE_PAIRS[0]).items()}
     PB = {k: np.array(v) for k, v in S.make_prices(T, S.PRICE_PAIRS[1]).items()}
+    PA["wind"] = np.array([1.0, 2.0, 0.5, 1.5])
+    PB["wind"] = np.array([1.5, 0.5, 1.0, 2.5])
     Pnew = PA if case["newp"] == "A" else PB
-    scn = dict(grid=GRID, prices={}, assets=portfolio(case["pf"]))
+    scn = dict(grid=gjson, prices={}, assets=portfolio(case["pf"]))
     try:
         portf, tg, _ = impl.build(scn)
         opA = portf.setup_optim_problem(PA, tg)
@@ -124,10 +142,14 @@ def run_case(case):
         must = [t for t in range(T) if mask[t]]
         free = [t for t in range(T) if not mask[t]]
     else:
-        d = pd.Timestamp(w["date"]).to_pydatetime()
-        win_arg = d.date() if w["form"] == "date" else d
         from ref.grid import parse_instant
-        di = parse_instant(w["date"], None)
+        if w["form"].startswith("aware:"):
+            di = parse_instant(w["date"], case.get("tz"))
+            win_arg = pd.Timestamp(di).tz_convert(w["form"].split(":")[1]).to_pydatetime()
+        else:
+            d = pd.Timestamp(w["date"]).to_pydatetime()
+            win_arg = d.date() if w["form"] == "date" else d
+            di = parse_instant(w["date"], None)
         must = [t for t in range(T) if g.points[t] < di]
         free = [t for t in range(T) if g.points[t] > di]
     fix = {"I": win_arg, "x": xA.copy()}
